@@ -64,7 +64,7 @@ class Gen:
         self.spaces = {}              # tuple(path) -> Sp
         self.order = []
         self.mrefs = {}
-        self.filtered = {"D8": 0, "D9": 0, "D24": 0, "D33": 0, "D34": 0, "D35": 0, "D1": 0, "D36": 0, "D37": 0}
+        self.filtered = {"D8": 0, "D9": 0, "D24": 0, "D33": 0, "D34": 0, "D35": 0, "D36": 0, "D37": 0}
         self.deferred = []
         self.features = set()
 
@@ -238,14 +238,13 @@ class Gen:
 
     def gen_cells(self, sp):
         used = set(self.visible_cells(sp))      # a derived cells cannot be overridden by new_cells
-        blocked = set()
-        for s2 in self.order:       # D1 (C03): a sub that already sees the name keeps its old definer
+        # D1 is repaired in /repo: names a sub space already sees through another base are generated again.  Names a
+        # sub space DEFINES stay blocked: creating the base cells afterwards leaves the sub's cells in an order that a
+        # read model does not reproduce (member order is not part of C04, but the write-read-write chain clause
+        # compares file texts)
+        for s2 in self.order:
             if sp in self.all_bases(s2):
-                blocked |= set(self.visible_cells(s2))
-        if self.avoid:
-            if any(n in blocked and n not in used for n in CELLS_NAMES):
-                self.filtered["D1"] += 1
-            used |= blocked
+                used |= set(s2.cells)
         cand = [n for n in CELLS_NAMES if n not in used]
         if not cand:
             return
